@@ -154,6 +154,12 @@ func RunTrace(prop, root string, ops []string) int {
 				fmt.Printf("   mtp %s#%d %s coll=%s liab=%s custody=%s intPaid=%s intUnpaid=%s fundPaid=%s fundRecv=%s health=%s\n", m.Address[len(m.Address)-6:], m.Id, m.Position, m.Collateral, m.Liabilities, m.Custody, m.BorrowInterestPaidCustody, m.BorrowInterestUnpaidLiability, m.FundingFeePaidCustody, m.FundingFeeReceivedCustody, m.MtpHealth)
 			}
 		}
+		if os.Getenv("VERIF_DUMP_TVL") != "" && br.OK() {
+			ctx := w.RCtx()
+			for _, pi := range w.App.MasterchefKeeper.GetAllPoolInfos(ctx) {
+				fmt.Printf("   pool %d tvl=%s ext_denoms=%v atomPrice=%s usdcPrice=%s\n", pi.PoolId, w.App.MasterchefKeeper.GetPoolTVL(ctx, pi.PoolId), pi.ExternalRewardDenoms, w.App.OracleKeeper.GetAssetPriceFromDenom(ctx, "uatom"), w.App.OracleKeeper.GetAssetPriceFromDenom(ctx, "uusdc"))
+			}
+		}
 		if os.Getenv("VERIF_DUMP_LLP") != "" && br.OK() {
 			ctx := w.RCtx()
 			pool, _ := w.App.AmmKeeper.GetPool(ctx, 1)
